@@ -153,7 +153,7 @@ def field_function_mutations(repo):
         mod = arepo.module(modname)
         ps = [p for p in bind if p != "in_out"]
         muts = {}
-        for field in "BH":
+        for field in "BHJM":
             params = dict(field=Const(field), **{p: O({"P:" + p}) for p in ps})
             if "in_out" in bind:
                 params["in_out"] = Const("auto")
@@ -248,6 +248,20 @@ def c08_t3(repo, res):
         res.ob(f"T3:{fn}:no in-place sink on inputs/object arrays", not mutp, {"rule": "T3", "function": fn, "sinks": [x[4] for x in mutp]})
         for org, where, line, how, txt in mutp:
             res.add(Finding("T3", "magpylib/_src/fields/field_wrap_BH.py", fn, txt, f"{org} modified in place ({how})", line))
+        if fn == "tile_group_property":
+            # the arrays handed to the field functions are new arrays on every path (np.array / np.repeat of the collected
+            # attributes), never a view of an object's own attribute: field functions allocate their result from them
+            orgs = sorted(x for x in org_of(o) if x != "fresh" and not x.startswith("const"))
+            res.ob("T3:tile_group_property returns a new array on every path", not orgs, {"rule": "T3", "function": fn, "return_origins": sorted(org_of(o))})
+            if orgs:
+                rets = [r for r in ast.walk(mod.funcs[fn]) if isinstance(r, ast.Return) and r.value is not None]
+                bad = rets[0]
+                for r in rets:
+                    if any(isinstance(c, ast.Call) and getattr(c.func, "attr", "") in ("asarray", "asanyarray") for c in ast.walk(r.value)) or \
+                            not any(isinstance(c, ast.Call) for c in ast.walk(r.value)):
+                        bad = r
+                res.add(Finding("T3", "magpylib/_src/fields/field_wrap_BH.py", fn, bad, f"the value handed to the field function may be a view of an object's own "
+                                f"attribute (origins {orgs}): an in-place step of the field function then changes the object", bad.lineno))
     return {}
 
 
